@@ -387,8 +387,9 @@ class VizierServicer(vizier_service_pb2_grpc.VizierServiceServicer):
         suggest_decision_proto = temp_pythia_service.Suggest(
             suggest_request_proto
         )
-      # Pythia can raise any exception, captured inside grpc.RpcError.
-      except grpc.RpcError as e:
+      # Pythia can raise any exception: a grpc.RpcError from a remote Pythia
+      # server, anything else (e.g. RuntimeError) from an in-process servicer.
+      except Exception as e:  # pylint: disable=broad-except
         output_op.error.CopyFrom(
             status_pb2.Status(code=code_pb2.Code.INTERNAL, message=str(e))
         )
@@ -760,9 +761,19 @@ class VizierServicer(vizier_service_pb2_grpc.VizierServiceServicer):
       temp_pythia_service = self._select_pythia_service(
           study_config.pythia_endpoint
       )
-      early_stopping_decisions_proto = temp_pythia_service.EarlyStop(
-          early_stop_request_proto
-      )
+      try:
+        early_stopping_decisions_proto = temp_pythia_service.EarlyStop(
+            early_stop_request_proto
+        )
+      except Exception:  # pylint: disable=broad-except
+        # Do not leave the operation ACTIVE forever (later checks would be
+        # answered from it without ever reaching Pythia again).
+        output_operation.status = (
+            vizier_oss_pb2.EarlyStoppingOperation.Status.DONE
+        )
+        output_operation.completion_time.CopyFrom(_get_current_time())
+        self.datastore.update_early_stopping_operation(output_operation)
+        raise
       early_stopping_decisions = svz.EarlyStopConverter.from_decisions_proto(
           early_stopping_decisions_proto
       )
